@@ -173,6 +173,31 @@ func Workload(st *Store) []Step {
 			ud(RA, pb.State{Term: 2, Vote: 2, Commit: 9}, nil, none)}},
 		Step{Kind: "close", Label: "close#2"},
 	)
+	if st.Hook != nil {
+		// Tan, third session: replica B (which shares its db with A in the
+		// multiplexed mode) is idle and records a vote only, in a log file that
+		// holds none of its entries; A rolls over, takes a snapshot and has its
+		// log compacted, which makes older log files obsolete
+		w = append(w,
+			Step{Kind: "open", Label: "open#3"},
+			Step{Kind: "save", Label: "save#10(B vote-only term 4, new log file)", Worker: 2, Updates: []pb.Update{
+				ud(RB, pb.State{Term: 4, Vote: 1, Commit: 10}, nil, none)}},
+			Step{Kind: "save", Label: "save#11(A 10..11, same log file as B's vote)", Worker: 2, Updates: []pb.Update{
+				ud(RA, pb.State{Term: 2, Vote: 2, Commit: 9}, ents(RA, 10, 11, 2), none)}},
+			Step{Kind: "hook", Label: "hook(rollover-on A)#2", Hook: "rollover-on", Rep: RA},
+			Step{Kind: "save", Label: "save#12(A 12, next log file)", Worker: 2, Updates: []pb.Update{
+				ud(RA, pb.State{Term: 2, Vote: 2, Commit: 11}, ents(RA, 12, 12, 2), none)}},
+			Step{Kind: "snapshots", Label: "savesnapshots(A@12)", Updates: []pb.Update{
+				ud(RA, pb.State{}, nil, snap(RA, 12, 2))}},
+			Step{Kind: "remove", Label: "removeentriesto(A,12)", Rep: RA, Index: 12},
+			Step{Kind: "compact", Label: "compactentriesto(A,12)", Rep: RA, Index: 12},
+			Step{Kind: "hook", Label: "hook(delete worker runs)", Hook: "delete-obsolete", Rep: RA},
+			Step{Kind: "hook", Label: "hook(rollover-off A)#2", Hook: "rollover-off", Rep: RA},
+			Step{Kind: "save", Label: "save#13(A 13)", Worker: 2, Updates: []pb.Update{
+				ud(RA, pb.State{Term: 2, Vote: 2, Commit: 12}, ents(RA, 13, 13, 2), none)}},
+			Step{Kind: "close", Label: "close#3"},
+		)
+	}
 	return w
 }
 
